@@ -430,8 +430,14 @@ def gen_late(seed: int, n: int) -> List[Scn]:
             msgs: List[Dict[str, Any]] = [{"kind": "valid", "task": "ts0", "late": True, "body": "instant", "outcome": "ret"} for _ in range(before)]
         else:
             msgs = [{"kind": "unknown", "late": True} for _ in range(before)]
-        msgs += [{"kind": "valid", "task": "ta0", "late": rng.random() < 0.7 or resync} for _ in range(after)]
-        cfg = {"A": A, "P": P, "ackable": rng.random() < 0.7, "msgs": msgs, "late_sync_first": resync,
+        msgs += [{"kind": "valid", "task": "ta0", "late": rng.random() < 0.7 or resync, "afterreg": True} for _ in range(after)]
+        mws: List[Dict[str, Any]] = []
+        if len(out) % 2 == 0:
+            # one middleware is there from the start, a second one is registered together with the task (its hooks apply
+            # to the messages that arrive afterwards)
+            mws = [{"pre": "sync", "post": "async"}, {"pre": rng.choice(["sync", "async"]), "onerr": "sync", "post": "sync",
+                                                      "postsave": rng.choice(["", "async"]), "late": True}]
+        cfg = {"A": A, "P": P, "ackable": rng.random() < 0.7, "msgs": msgs, "late_sync_first": resync, "mws": mws,
                "ack": rng.choice(["default", "when_executed", "when_saved"])}
         steps: List[Any] = [["arrive", before], ["adv_rel", rng.choice([0, 1, 4])], ["register"], ["arrive", after],
                             ["adv_rel", 1], ["fin_all", rng.choice(["ret", "exc"])], ["adv_rel", 2], ["stop"], ["adv_rel", 5]]
